@@ -11,7 +11,7 @@ def v_files():
     out = []
     for d, _, fs in os.walk(COQ):
         rel = os.path.relpath(d, COQ)
-        if rel.startswith("Cases"):
+        if rel.startswith("Cases") or rel.startswith("Extract"):
             continue
         for f in fs:
             if f.endswith(".v"):
